@@ -65,7 +65,7 @@ def mk_start(tyname, bits):
     return Struct(VA, [bits]) if tyname == VA else Struct(PG, [Struct(VA, [bits]), UNIT])
 
 
-def addr_steps(chk):
+def addr_steps(chk, rules=None, rule_name=None):
     """forward_checked / backward_checked of the public `Step` impls of VirtAddr and Page<S>, end to end (the crate-private helpers they
     go through are inlined by the interpreter, so their names, signatures and number are free to change)"""
     I = chk.I
@@ -83,7 +83,8 @@ def addr_steps(chk):
                 sites = set()
                 for o in outs:
                     sites |= set(wrap_sites(o))
-                chk.ob('no-silent-wrap', tagc, not sites and all(o.kind == 'ret' for o in outs), 'unproved overflow sites %r; paths %r' % (sorted(sites, key=repr), [o.kind for o in outs]), fn_site(I, fn_))
+                if rules is None:
+                    chk.ob('no-silent-wrap', tagc, not sites and all(o.kind == 'ret' for o in outs),     'unproved overflow sites %r; paths %r' % (sorted(sites, key=repr), [o.kind for o in outs]), fn_site(I, fn_))
                 somes = [o for o in outs if o.kind == 'ret' and o.val.vname == 'Some']
                 nones = [o for o in outs if o.kind == 'ret' and o.val.vname == 'None']
                 okc = bool(somes)
@@ -102,7 +103,9 @@ def addr_steps(chk):
                     if not I.aff_equal(o.st, got, want):
                         oke = False
                         bad = (res, got, want)
-                chk.ob('canonical', '%s: every Some(..) is canonical%s' % (tagc, ' and size-aligned' if sb else ''), okc, 'paths %r' % (somes,), fn_site(I, fn_))
+                chk.ob(rule_name or 'canonical', '%s: every Some(..) is canonical%s' % (tagc, ' and size-aligned' if sb else ''), okc and all(o.kind == 'ret' for o in outs), 'paths %r' % (somes,), fn_site(I, fn_))
+                if rules is not None:
+                    continue
                 chk.ob('exact-step', '%s: Some(a) with position(a) = position(start) %s count%s' % (tagc, '+' if sign > 0 else '-', (' * %#x' % scale) if sb else ''), oke, 'mismatch %r' % (bad,),
                        fn_site(I, fn_), sample=[repr(inner(o.val.fields[0])) for o in somes][:3])
                 # None exactly when the position does not exist
